@@ -135,6 +135,12 @@ func runJobs(c *core.Ctx, worker string, jobs []job, par int) ([]traceOut, []str
 // validate runs TraceFormatters over the concatenation; returns the indices of rejected traces and
 // for each the first unexplained line.
 func validate(c *core.Ctx, res *core.Result, traces []traceOut) (map[int]string, error) {
+	return validateWith(c, res, "TraceFormatters", traces)
+}
+
+// validateWith replays the traces on an acceptance-style trace specification (silent steps, high-water
+// mark): a rejected trace is cut out and the rest is replayed again.
+func validateWith(c *core.Ctx, res *core.Result, module string, traces []traceOut) (map[int]string, error) {
 	rejected := map[int]string{}
 	live := make([]int, len(traces))
 	for i := range traces {
@@ -149,10 +155,10 @@ func validate(c *core.Ctx, res *core.Result, traces []traceOut) (map[int]string,
 				owner = append(owner, i)
 			}
 		}
-		tf := filepath.Join(c.Scratch, fmt.Sprintf("ftrace%d.ndjson", round))
+		tf := filepath.Join(c.Scratch, fmt.Sprintf("%s-trace%d.ndjson", module, round))
 		os.WriteFile(tf, []byte(strings.Join(all, "\n")+"\n"), 0o644)
-		vf := filepath.Join(c.Scratch, fmt.Sprintf("fverdict%d.ndjson", round))
-		t, err := c.RunTLC(core.TLCOpts{Module: "TraceFormatters", Config: "TraceFormatters.cfg", Workers: 1,
+		vf := filepath.Join(c.Scratch, fmt.Sprintf("%s-verdict%d.ndjson", module, round))
+		t, err := c.RunTLC(core.TLCOpts{Module: module, Config: module + ".cfg", Workers: 1,
 			Env: map[string]string{"VERIF_TRACE": tf, "VERIF_OUT": vf}})
 		if err != nil {
 			return nil, err
@@ -162,7 +168,7 @@ func validate(c *core.Ctx, res *core.Result, traces []traceOut) (map[int]string,
 			// an invariant of Formatters fails in a state reached by explaining real events:
 			// the offending trace is the one containing the high-water mark
 		} else if t.ErrorKind != "" {
-			return nil, core.Inconcl("TraceFormatters: TLC error %s\n%s", t.ErrorKind, core.Tail(t.Output, 30))
+			return nil, core.Inconcl("%s: TLC error %s\n%s", module, t.ErrorKind, core.Tail(t.Output, 30))
 		}
 		hwm, n := 0, len(all)
 		if vs, err := core.ReadNDJSON(vf); err == nil && len(vs) == 1 {
@@ -174,7 +180,7 @@ func validate(c *core.Ctx, res *core.Result, traces []traceOut) (map[int]string,
 				hwm = 1
 			}
 		} else {
-			return nil, core.Inconcl("TraceFormatters wrote no verdict: %v", err)
+			return nil, core.Inconcl("%s wrote no verdict: %v", module, err)
 		}
 		if t.ErrorKind == "" && hwm == n+1 {
 			return rejected, nil
@@ -183,7 +189,7 @@ func validate(c *core.Ctx, res *core.Result, traces []traceOut) (map[int]string,
 			hwm = n
 		}
 		bad := owner[hwm-1]
-		why := "no behaviour of Formatters explains line: " + all[hwm-1]
+		why := "no behaviour of " + strings.TrimPrefix(module, "Trace") + " explains line: " + all[hwm-1]
 		if t.ErrorKind == "invariant" {
 			why = "invariant " + t.InvViolated + " violated while replaying the trace"
 		}
@@ -391,6 +397,12 @@ func Run(c *core.Ctx, replay string) (*core.Result, error) {
 		}
 	}
 
+	// the call site: the real command line tool with stand-in formatters (Pipeline.tla)
+	pipe, err := pipelineStage(c, res, replay)
+	if err != nil {
+		return nil, err
+	}
+
 	events := 0
 	kinds := map[string]bool{}
 	for i, t := range traces {
@@ -411,6 +423,7 @@ func Run(c *core.Ctx, replay string) (*core.Result, error) {
 	res.Extra["events"] = events
 	res.Extra["schedules_followed_loosely"] = loose
 	res.Extra["race_detector"] = "on (worker built with -race)"
+	res.Extra["pipeline"] = pipe
 	return res, nil
 }
 
